@@ -3,6 +3,7 @@ import re
 
 from .core import RuleResult
 from .facts import fn_file, fn_key, fn_loc, walk, strip, peel_refs, pat_bindings, Render
+from .facts import lit_float, lit_number
 from .sym import Tracer, Term, Cmp, k, as_term, as_poly, walk_terms, Poly
 
 LEVEL = ("Static analysis of linfa-trees: (route) the comparison that sends a training row to the left child when the child "
@@ -520,10 +521,7 @@ def rule_importance(ctx):
                     while s0.get("k") == "Call" and len(s0["args"]) == 1:
                         s0 = peel_refs(s0["args"][0])
                     if s0.get("k") == "Lit":
-                        try:
-                            bound = float(str(s0.get("v")).replace("_", "").rstrip("f3264"))
-                        except ValueError:
-                            bound = None
+                        bound = lit_float(s0.get("v"))
                     if s0.get("k") == "Call" and not s0["args"] and (c.dfn(strip(s0["f"]).get("def")) or {}).get("name") == "zero":
                         bound = 0.0
             if bound is not None and bound > 0:
@@ -869,6 +867,46 @@ def rule_maskcount(ctx):
     return res.finish(2)
 
 
+def rule_sidepair(ctx):
+    """The sweep moves each sample's weight from the right side to the left: `left += w; right -= w`.  Both running totals
+    belong to one sweep - one feature - and are set up together.  One of them declared outside the per-feature loop carries
+    the weight of the previous feature's sweep into the next one, and the min_weight_leaf test on that side passes for free."""
+    from .layout import with_parents
+    res = RuleResult("R-C14-sidepair", "the two side-weight accumulators of the split sweep are declared in the same block (both are reset for every feature)")
+    F = ctx.facts()
+    fns = [f for f in F.all_fns() if f["d"]["krate"] == "linfa_trees" and f["d"]["name"] == "fit" and (f["d"].get("self_adt") or "").endswith("TreeNode")]
+    if not fns:
+        res.missing_anchor("TreeNode::fit")
+    for fn in fns:
+        c = fn["crate"]
+        key = fn_key(fn)
+        res.instance(key)
+        plus, minus = {}, {}
+        for y in walk(fn["body"]):
+            if y.get("k") == "AssignOp" and y["op"] in ("+", "-"):
+                l0, r0 = peel_refs(y["l"]), peel_refs(y["r"])
+                if l0.get("k") == "Path" and "local" in l0 and r0.get("k") == "Path" and "local" in r0 and (c.ty(l0.get("t")) or "").strip() in ("f32", "f64"):
+                    (plus if y["op"] == "+" else minus).setdefault(r0["local"], []).append(l0["local"])
+        pairs = [(a, b) for w in plus for a in plus[w] for b in minus.get(w, [])]
+        if not pairs:
+            res.undecided("%s : side-accumulators" % key, "no `left += w; right -= w` pair found (fail closed)", fn_loc(fn))
+            continue
+        decl_block = {}
+        for y, anc in with_parents(fn["body"]):
+            if y.get("k") == "LetStmt" and y["pat"].get("k") == "Bind":
+                blk = next((a for a in reversed(anc) if a.get("k") == "Block"), None)
+                decl_block[y["pat"]["local"]] = (id(blk) if blk is not None else None, y)
+        a, b = pairs[0]
+        reset = any(y.get("k") == "Assign" and peel_refs(y["l"]).get("local") in (a, b) for y in walk(fn["body"]))
+        if a in decl_block and b in decl_block and decl_block[a][0] != decl_block[b][0] and reset:
+            res.undecided("%s : side-accumulators-reset-by-assignment" % key, "declared in different blocks and one of them re-assigned: whether every feature starts from a fresh total is not decided here", fn_loc(fn))
+        elif a in decl_block and b in decl_block and decl_block[a][0] != decl_block[b][0]:
+            res.violate("%s : side-accumulators-in-different-scopes" % key, "`%s` and `%s` are moved in step by the sweep but declared in different blocks: one of them is not reset for every feature and carries the previous sweep's total into the next" % (decl_block[a][1]["pat"]["name"], decl_block[b][1]["pat"]["name"]), fn_loc(fn, decl_block[a][1].get("ln")))
+        else:
+            res.ok()
+    return res.finish(1)
+
+
 def rule_midpoint(ctx):
     """The sweep decides which samples go left by their *position* in the sorted order; the tree that is stored routes by
     `value <= threshold`.  The two agree only if the threshold lies in [lower value, upper value).  The midpoint of two
@@ -902,7 +940,10 @@ def rule_midpoint(ctx):
             v = peel_refs(val)
             if v.get("k") == "Binary" and v["op"] == "/" and peel_refs(v["l"]).get("k") == "Binary" and peel_refs(v["l"])["op"] == "+":
                 den = r.e(peel_refs(v["r"]))
-                if not (den.rstrip("f3264_.0") in ("2",) or "cast(2" in den or den.endswith("(2.0)") or den.endswith("(2.)")):
+                den0 = peel_refs(v["r"])
+                while den0.get("k") == "Call" and len(den0["args"]) == 1:
+                    den0 = peel_refs(den0["args"][0])
+                if not ((den0.get("k") == "Lit" and lit_float(den0.get("v")) == 2.0) or "cast(2" in den or den.endswith("(2.0)") or den.endswith("(2.)")):
                     continue
                 ops = [peel_refs(peel_refs(v["l"])["l"]), peel_refs(peel_refs(v["l"])["r"])]
                 if any("sorted_values" in r.e(o) or (o.get("k") == "Path" and o.get("local") in inits and "sorted_values" in r.e(inits[o["local"]])) or (o.get("k") == "Path" and o.get("local") == tgt) for o in ops):
@@ -948,4 +989,4 @@ def rules(tier):
             precision.make_rule("R-C14-precision", lambda f: f["d"]["krate"] == "linfa_trees", 40, "linfa-trees"),
             carry.make_accessor_rule("R-C14-accessor", {"linfa_trees"}, 4), carry.make_ctor_rule("R-C14-ctor", {"linfa_trees"}, 1), rule_sampleindex, rule_maskcount,
             # the limits that reach the fit are the ones the caller set: `check` hands the checked set on unchanged
-            c04.rule_same, rule_midpoint]
+            c04.rule_same, rule_midpoint, rule_sidepair]
